@@ -27,9 +27,39 @@ pub const HANG_SECS: u64 = 20;
 #[derive(Clone, Debug, Serialize, Deserialize, Default)]
 pub struct KnownEntry {
     pub property: String,
+    /// exact signature, or a pattern in which `*` stands for any run of characters (used where one
+    /// defect shows under a family of option / argument-class spellings)
     pub sig: String,
     pub what: String,
     pub witness: String,
+}
+
+/// `*` matches any (possibly empty) run of characters; everything else is literal
+pub fn sig_matches(pattern: &str, sig: &str) -> bool {
+    if !pattern.contains('*') {
+        return pattern == sig;
+    }
+    let parts: Vec<&str> = pattern.split('*').collect();
+    let mut pos = 0usize;
+    for (i, part) in parts.iter().enumerate() {
+        if part.is_empty() {
+            continue;
+        }
+        if i == 0 {
+            if !sig.starts_with(part) {
+                return false;
+            }
+            pos = part.len();
+        } else if i == parts.len() - 1 {
+            return sig.len() >= pos + part.len() && sig[pos..].ends_with(part);
+        } else {
+            match sig[pos..].find(part) {
+                Some(j) => pos += j + part.len(),
+                None => return false,
+            }
+        }
+    }
+    true
 }
 
 #[derive(Clone, Debug, Serialize, Deserialize, Default)]
@@ -254,6 +284,11 @@ pub fn run_index(id: &str, tier: &str, seed: u64, idx: u64, stats: &mut Stats, k
         // "at quiescence after every explored concurrent schedule": the CONC leg of C03
         return conc::run_index(id, tier, seed, idx, stats, known);
     }
+    if diffw::leg(id).is_some() && idx % 8 == 5 {
+        // "on both backends": the DIFF leg of this property
+        stats.bump("diff_leg_runs");
+        return diffw::run_index(id, tier, seed, idx, stats, known);
+    }
     match world_of(id) {
         World::Seq => seq_run_index(id, tier, seed, idx, stats, known),
         World::Conc => conc::run_index(id, tier, seed, idx, stats, known),
@@ -322,7 +357,7 @@ pub fn worker(a: &[String]) -> i32 {
     }
     let known_file = load_known();
     let known_sigs: Vec<String> = known_file.known.iter().filter(|k| k.property == id).map(|k| k.sig.clone()).collect();
-    let known = move |v: &Violation| known_sigs.contains(&v.sig);
+    let known = move |v: &Violation| known_sigs.iter().any(|k| sig_matches(k, &v.sig));
     start_watchdog();
     let mut stats = Stats::default();
     let mut idx = start;
@@ -645,7 +680,7 @@ pub fn check(id: &str, tier: &str, extra: &[String]) -> i32 {
         let wpath = format!("{}/{}", VERIF_DIR, k.witness);
         let bound = if k.sig.starts_with("hang|") { Duration::from_secs(3) } else { Duration::from_secs(HANG_SECS) };
         match replay_child(&wpath, bound) {
-            Ok(Some(sig)) if sig == k.sig || (sig == "hang" && k.sig.starts_with("hang|")) || (sig == "crash" && k.sig.starts_with("crash|")) => {
+            Ok(Some(sig)) if sig_matches(&k.sig, &sig) || (sig == "hang" && k.sig.starts_with("hang|")) || (sig == "crash" && k.sig.starts_with("crash|")) => {
                 println!("KNOWN-FINDING: property={} {}", id, k.what);
                 known_lines.push(k.what.clone());
             },
@@ -685,7 +720,7 @@ pub fn check(id: &str, tier: &str, extra: &[String]) -> i32 {
                     let sig = format!("hang|{}", label);
                     let case = trace_case(id, tier, seed, run, &ops, &header, &sig, "operation does not return (watchdog)");
                     let v = Violation { property: id.into(), oracle: "hang".into(), step: ops.len().saturating_sub(1), sig: sig.clone(), detail: format!("run {} never returns from {}", run, last) };
-                    if known.known.iter().any(|k| k.property == id && k.sig == sig) {
+                    if known.known.iter().any(|k| k.property == id && sig_matches(&k.sig, &sig)) {
                         *total.known_hits.entry(sig).or_insert(0) += 1;
                     } else {
                         found.push((v, case));
@@ -708,7 +743,7 @@ pub fn check(id: &str, tier: &str, extra: &[String]) -> i32 {
                         let sig = format!("crash|{}", label);
                         let case = trace_case(id, tier, seed, run, &ops, &header, &sig, "the process running the simulation dies inside this operation");
                         let v = Violation { property: id.into(), oracle: "process-crash".into(), step: ops.len().saturating_sub(1), sig: sig.clone(), detail: format!("run {} kills its process in {} (exit {:?}) {}", run, last, code, stderr.lines().next().unwrap_or("")) };
-                        if known.known.iter().any(|k| k.property == id && k.sig == sig) {
+                        if known.known.iter().any(|k| k.property == id && sig_matches(&k.sig, &sig)) {
                             *total.known_hits.entry(sig).or_insert(0) += 1;
                         } else {
                             found.push((v, case));
